@@ -2,6 +2,7 @@ package astisub
 
 import (
 	"bytes"
+	"strconv"
 	"time"
 )
 
@@ -187,14 +188,17 @@ func vdecodeSRTTime(b []byte, p int) (int64, bool) {
 		return 0, false
 	}
 	ok := b[p+2] == ':' && b[p+5] == ':' && b[p+8] == ','
-	d := func(i int) int64 { return int64(b[p+i] - '0') }
 	for _, i := range []int{0, 1, 3, 4, 6, 7, 9, 10, 11} {
 		ok = vand(ok, vand(b[p+i] >= '0', b[p+i] <= '9'))
 	}
-	h := d(0)*10 + d(1)
-	m := d(3)*10 + d(4)
-	s := d(6)*10 + d(7)
-	f := d(9)*100 + d(10)*10 + d(11)
+	hh, e1 := strconv.Atoi(string(b[p : p+2]))
+	mm, e2 := strconv.Atoi(string(b[p+3 : p+5]))
+	ss, e3 := strconv.Atoi(string(b[p+6 : p+8]))
+	ff, e4 := strconv.Atoi(string(b[p+9 : p+12]))
+	if e1 != nil || e2 != nil || e3 != nil || e4 != nil {
+		return 0, false
+	}
+	h, m, s, f := int64(hh), int64(mm), int64(ss), int64(ff)
 	ok = vand(ok, vand(m < 60, s < 60))
 	return ((h*60+m)*60+s)*1000 + f, ok
 }
@@ -204,15 +208,16 @@ func VH_C01_WriteRead() {
 	vmode("int")
 	n := 1 + choose(2)
 	corpus := vc01Corpus()
+	k := choose(len(corpus)) // which texts: every corpus entry appears as first line of the first cue
 	s := NewSubtitles()
 	var model []vcueModel
 	for c := 0; c < n; c++ {
 		st := nondetInt64(0, 100*3600*1000000000-1) // nanoseconds: the writer truncates to ms
 		en := nondetInt64(0, 100*3600*1000000000-1)
-		nl := 1 + choose(2)
+		nl := 1 + (k+c)%2
 		var lines []vtextLine
 		for l := 0; l < nl; l++ {
-			lines = append(lines, corpus[choose(len(corpus))])
+			lines = append(lines, corpus[(k+3*c+5*l)%len(corpus)])
 		}
 		model = append(model, vcueModel{st: st, en: en, lines: lines})
 		s.Items = append(s.Items, vc01Item(st, en, lines))
